@@ -96,12 +96,6 @@ theorem readFloatStr_enc (sc : Score1) (rest : Bytes) (h : sc.wf) :
     simp only [this, if_false]
     rw [readN_append]
 
-theorem u8_ne (n : Nat) (c : UInt8) (h : n < 256) (hne : n ≠ c.toNat) : UInt8.ofNat n ≠ c := by
-  intro e
-  have := congrArg UInt8.toNat e
-  rw [u8_toNat n h] at this
-  exact hne this
-
 theorem floatStrBits_enc (sc : Score1) (h : sc.wf) : floatStrBits sc.enc = some sc.bits := by
   cases sc with
   | nan => simp [Score1.enc, floatStrBits, Score1.bits]
